@@ -15,6 +15,8 @@
      EscRoundTrip   Lex(Quote(s)) is exactly ONE literal spanning the whole text and decodes to s
      LikeStructure  Lex(LikeText(s)) is exactly ONE literal spanning the whole text           (no injection)
      LikeValue      ... and its LIKE meaning is  ANY s ANY  with every character of s literal   (right answer)
+     MatcherStructure  every admissible rendering of a regex label matcher (anchored pattern; equality shortcut for a
+                    pattern without metacharacters) is exactly ONE literal decoding to the value that rendering needs
 *)
 EXTENDS Integers, Sequences, TLC
 
@@ -23,6 +25,8 @@ Sigma == {"bs", "sq", "dq", "nul", "nl", "cr", "bsp", "tab", "sub", "pct", "us",
           "hash", "semi", "hi", "bad", "a", "bt"}   \* "bt": the backtick (raw-string quote of LogQL / TraceQL, identifier quote of ClickHouse)
 \* letters that only the escaping routines emit ("a" of \x1a is the harmless letter of Sigma itself)
 Letters == {"c0", "c1", "n", "r", "b", "t", "x"}
+\* punctuation that only the regular-expression anchoring of a label matcher emits:  ^ ( ? : ) $
+AnchorLetters == {"caret", "lp", "qm", "colon", "rp", "dollar"}
 Gamma == Sigma \cup Letters
 ControlClasses == {"nul", "nl", "cr", "bsp", "tab", "sub", "ctl"}    \* "ctl": any other ASCII control character
 
@@ -109,6 +113,26 @@ LikeDecode(p) ==
       ELSE <<c>> \o LikeDecode(Tail(p))
 
 Intended(s) == <<"ANY">> \o s \o <<"ANY">>
+
+\* ---- label matchers with a regular expression: the rendering is CHOSEN by the class of the string --------------------
+\*   planner_stream_select.go (LogQL stream selectors, /series and label-values match[], PromQL matchers) and
+\*   prof/transpiler/planner_selector.go render  =~ v  as  match(val, '^(?:v)$') == 1  (anchoredRe).  A planner may also
+\*   take a SHORTCUT for a pattern that is its own literal (no metacharacter: regexp.QuoteMeta(v) = v) and render the
+\*   comparison  val == 'v'  (the line filter does the same with LIKE, see LikeText).  The choice depends on the request
+\*   string, so every member of the family has to be one literal that decodes to what the comparison needs.
+RegexMeta == {"bs", "star"}                     \* the classes of Sigma regexp.QuoteMeta escapes ( \ . + * ? ( ) | [ ] { } ^ $ )
+RegexPlain(s) == /\ s # <<>>                                            \* regexp/syntax: OpLiteral whose runes are s itself
+                 /\ \A i \in 1..Len(s) : s[i] \notin RegexMeta \cup {"bad"}  \* (invalid UTF-8 does not parse)
+Anchor(s) == <<"caret", "lp", "qm", "colon">> \o s \o <<"rp", "dollar">>  \* anchoredRe: ^(?:s)$
+\* the value the literal of each admissible rendering has to carry
+MatcherValues(s) == {Anchor(s)} \cup (IF RegexPlain(s) \/ s = <<>> THEN {s} ELSE {})   \* (^(?:)$ is equality with "")
+\* the renderings of the family as the code is meant to write them: through StringVal
+MatcherTexts(s) == {Quote(v) : v \in MatcherValues(s)}
+MatcherOK(s) == \A v \in MatcherValues(s) : LET r == Lex(Quote(v)) IN r.ok /\ r.rest = <<>> /\ r.val = v
+\* the same shortcut with the value PASTED between quotes (fmt.Sprintf("'%s'", v)): "plain for the regexp package" does not
+\* mean "plain for SQL" -- TLC refutes RawShortcutOK (MC_Escape: ASSUME RawShortcutRefuted), the quote is the witness
+RawQuote(s) == <<"sq">> \o s \o <<"sq">>
+RawShortcutOK(s) == RegexPlain(s) => (LET r == Lex(RawQuote(s)) IN r.ok /\ r.rest = <<>> /\ r.val = s)
 
 \* ---- the properties ---------------------------------------------------------------------------------------------
 EscOK(s)         == LET r == Lex(Quote(s)) IN r.ok /\ r.rest = <<>> /\ r.val = s
